@@ -10,6 +10,7 @@ import (
 	"regexp"
 	"sort"
 	"strings"
+	"sync/atomic"
 	"time"
 
 	"go.etcd.io/bbolt/verifbridge"
@@ -184,6 +185,9 @@ func (r *flRunner) exec(st FLStep) (err error) {
 	return nil
 }
 
+// OverflowImages counts the freelist page images written with the 0xFFFF count convention (evidence).
+var OverflowImages atomic.Int64
+
 type flProgram struct {
 	Name    string   `json:"name"`
 	Backend string   `json:"backend"`
@@ -211,6 +215,9 @@ func runFLPrograms(progs []flProgram, traceFile string) (lines []int, failures [
 			}
 		}
 		for _, e := range r.out {
+			if im, ok := e["image"].(map[string]any); ok && im["count"] == 0xFFFF {
+				OverflowImages.Add(1)
+			}
 			b, _ := json.Marshal(e)
 			f.Write(append(b, '\n'))
 			line++
@@ -312,21 +319,37 @@ func CheckC09(c *Ctx) int {
 		p := randomFLProgram(rng, mp, 30+rng.Intn(60), 1+rng.Intn(8))
 		progs = append(progs, flProgram{Name: fmt.Sprintf("rnd-%d", i), Backend: []string{"array", "hashmap"}[i%2], MaxPage: mp, Steps: p})
 	}
-	// the 0xFFFF count convention: more than 65534 free + pending ids
-	big := []FLStep{}
-	{
-		var ids []uint64
-		for p := uint64(2); p < 66000; p++ {
-			if p%97 != 0 {
-				ids = append(ids, p)
-			}
-		}
-		big = append(big, FLStep{Op: "Init", Ids: ids}, FLStep{Op: "NextTx"}, FLStep{Op: "Free", P: 97 * 3, Ov: 0}, FLStep{Op: "Allocate", N: 5},
-			FLStep{Op: "WriteRead"}, FLStep{Op: "Allocate", N: 2}, FLStep{Op: "WriteRead"})
+	progs = append(progs, bigFreelistPrograms()...)
+	ops := c.runFreelistPrograms(progs, 14)
+	c.traces = len(progs)
+	c.Cov["evaluations"] = ops
+	c.Cov["freelist_images_with_0xFFFF_count"] = OverflowImages.Load()
+	if OverflowImages.Load() == 0 {
+		c.Infra = append(c.Infra, "the > 65534-id scenario did not produce a page image with the 0xFFFF count convention")
 	}
-	progs = append(progs, flProgram{Name: "big-array", Backend: "array", MaxPage: 66000, Steps: big}, flProgram{Name: "big-hashmap", Backend: "hashmap", MaxPage: 66000, Steps: big})
+	c.Cov["distinct_nontrivial"] = len(progs)
+	c.Cov["rule"] = "evaluations = allocator operations executed on a real backend whose complete observable post-state TLC compared with Freelist.tla; each program (TLC-generated on the 8-page universe, run on both backends; randomized on 12..4096 page ids; the > 65534-id scenario) is distinct by construction"
+	c.AddSample(map[string]any{"program": progs[0]})
+	return c.Finish(nil)
+}
+
+// bigFreelistPrograms exercise the 0xFFFF count convention: more than 65534 free + pending ids.
+func bigFreelistPrograms() []flProgram {
+	var ids []uint64
+	for p := uint64(2); p < 70000; p++ {
+		if p%97 != 0 {
+			ids = append(ids, p)
+		}
+	}
+	big := []FLStep{{Op: "Init", Ids: ids}, {Op: "NextTx"}, {Op: "Free", P: 97 * 3, Ov: 0}, {Op: "Allocate", N: 5},
+		{Op: "WriteRead"}, {Op: "Allocate", N: 2}, {Op: "WriteRead"}}
+	return []flProgram{{Name: "big-array", Backend: "array", MaxPage: 70000, Steps: big}, {Name: "big-hashmap", Backend: "hashmap", MaxPage: 70000, Steps: big}}
+}
+
+// runFreelistPrograms executes allocator programs on the real backends and validates the recorded
+// operations with TraceFreelist (sharded over JVMs). Returns the number of operations validated.
+func (c *Ctx) runFreelistPrograms(progs []flProgram, shards int) int {
 	// shard into trace files, validate each with TLC
-	shards := 14
 	type shardRes struct {
 		findings []Finding
 		infra    []string
@@ -391,10 +414,5 @@ func CheckC09(c *Ctx) int {
 		ts, _ := c.Cov["trace_validation_states"].(int64)
 		c.Cov["trace_validation_states"] = ts + sr.states
 	}
-	c.traces = len(progs)
-	c.Cov["evaluations"] = ops
-	c.Cov["distinct_nontrivial"] = len(progs)
-	c.Cov["rule"] = "evaluations = allocator operations executed on a real backend whose complete observable post-state TLC compared with Freelist.tla; each program (TLC-generated on the 8-page universe, run on both backends; randomized on 12..4096 page ids; the > 65534-id scenario) is distinct by construction"
-	c.AddSample(map[string]any{"program": progs[0]})
-	return c.Finish(nil)
+	return ops
 }
